@@ -37,6 +37,7 @@ fn main() {
         Some("one") => cmd_one(&args),
         Some("replay") => cmd_replay(&args),
         Some("minimize") => cmd_minimize(&args),
+        Some("gen") => cmd_gen(&args),
         _ => {
             eprintln!("usage: tvsim run|one|replay ...");
             std::process::exit(2);
@@ -59,6 +60,7 @@ fn cmd_run(args: &[String]) {
     set_known(args);
     let t0 = Instant::now();
     let mut agg = Agg::default();
+    let mut last_flush = Instant::now();
     let mut i = si;
     while i < runs {
         if t0.elapsed().as_secs_f64() > budget {
@@ -86,6 +88,16 @@ fn cmd_run(args: &[String]) {
             }
         }
         i += sn;
+        if last_flush.elapsed().as_secs_f64() > 4.0 {
+            // partial report: survives an abort of this process
+            agg.wall_s = t0.elapsed().as_secs_f64();
+            agg.completed_upto = i;
+            let tmp = format!("{out_path}.tmp");
+            if std::fs::write(&tmp, serde_json::to_string(&agg.to_json()).unwrap()).is_ok() {
+                let _ = std::fs::rename(&tmp, &out_path);
+            }
+            last_flush = Instant::now();
+        }
     }
     agg.wall_s = t0.elapsed().as_secs_f64();
     agg.completed_upto = i;
@@ -258,7 +270,7 @@ fn cmd_replay(args: &[String]) {
     // replay <file> [--prop Cxx]: the file is {property, case, choices?...}
     let path = args.get(2).expect("replay <file>");
     let v: serde_json::Value = serde_json::from_str(&std::fs::read_to_string(path).expect("read replay")).expect("json");
-    let prop = leak(v["property"].as_str().or(arg(args, "--prop").as_deref()).expect("property"));
+    let prop = leak(v["check"].as_str().or(v["property"].as_str()).or(arg(args, "--prop").as_deref()).expect("property"));
     let mut case: workload::Case = serde_json::from_value(v["case"].clone()).expect("case");
     if let Some(ch) = v.get("choices").and_then(|c| c.as_array()) {
         if !has(args, "--free") && !ch.is_empty() {
@@ -328,4 +340,19 @@ fn cmd_minimize(args: &[String]) {
     });
     std::fs::write(outp, serde_json::to_string_pretty(&j).unwrap()).expect("write");
     println!("minimised {} -> {} ops in {} executions", case.ops.len(), best.ops.len(), m.execs);
+}
+
+/// gen --prop P --tier T --seed S --index I --out FILE: write the generated case (for the driver)
+fn cmd_gen(args: &[String]) {
+    let prop = leak(&arg(args, "--prop").expect("--prop"));
+    let thorough = arg(args, "--tier").map(|t| t == "thorough").unwrap_or(false);
+    let seed: u64 = arg(args, "--seed").and_then(|s| s.parse().ok()).unwrap_or(1);
+    let i: u64 = arg(args, "--index").and_then(|s| s.parse().ok()).unwrap_or(0);
+    let out = arg(args, "--out").expect("--out");
+    let rs = profiles::run_seed(seed, prop, thorough, i);
+    let case = profiles::gen_case(prop, rs, thorough);
+    let vprop = if prop == "C02P" { "C02" } else { prop };
+    let j = serde_json::json!({"property": vprop, "check": prop, "run_seed": rs, "case": case,
+        "ops_readable": case.ops.iter().map(exec::short_op).collect::<Vec<_>>()});
+    std::fs::write(out, serde_json::to_string_pretty(&j).unwrap()).expect("write");
 }
